@@ -73,6 +73,13 @@ CHECKS += [
           'trusted: TLC, g++ 12 coroutines + ASan; arity-0 coroutine functions only (open finding D12); expectation outlives its coroutines (proviso)', 'tla-coro'),
 ]
 
+CHECKS += [
+    other('C09', 'Binding.tla: a store model (caller object, callee parameter, named local, creation-time copy) explored by TLC for the capture / write-through / by-value laws, and BindingExpect!Expect, the observation every member of the generated program family must show; '
+                 'the family (arity 0..15 x position x value, &, const&, &&, T*, move-only unique_ptr, copy-counting by value / const& x MAKE_MOCKn, MAKE_CONST_MOCKn, overloaded, IMPLEMENT_MOCKn) is compiled and run under ASan+UBSan; address identity in WITH / SIDE_EFFECT / RETURN, positional value, write-through, returned-reference aliasing, copy count and plain-vs-LR_ capture of a local changed between creation and call are judged by TLC',
+          'TLA+ store model checked by TLC + TLA+ expected-observation function judging an executed, generated C++ program family', '6/C09',
+          'trusted: TLC, g++ sanitizers, the family generator; the arity/type axis is generated C++ (the spec contributes aliasing and capture semantics)', 'tla-binding'),
+]
+
 NOT_YET = {
     'C09': 'check under construction in this round (generated program family + Binding.tla); not claimed until it runs clean',
     'C10': 'check under construction in this round (Matchers.tla + matcher driver); not claimed until it runs clean',
@@ -92,7 +99,8 @@ def main():
                    enable='-DROLLBEAR_TROMPELOEIL_VERIF on the C12 driver build only (no hook commit exists yet; the sequential checks use the public API only)',
                    baseline_off_cmd='cmake -G Ninja -S /repo -B /repo/_build -DCMAKE_BUILD_TYPE=RelWithDebInfo -DCMAKE_CXX_FLAGS=-Wno-error -DTROMPELOEIL_BUILD_TESTS=yes && cmake --build /repo/_build && ctest --test-dir /repo/_build -j8 --timeout 900 --output-junit /repo/_build/junit.xml',
                    source_commits=[], add_only=True),
-        engines=[dict(name='tla-coro', path='spec/Coro.tla', serves_properties=['C20'], kind_free_text='TLA+ spec + TLC model checking + trace validation of mocked coroutines (C++20 driver)'),
+        engines=[dict(name='tla-binding', path='spec/Binding.tla', serves_properties=['C09'], kind_free_text='TLA+ store model + expected observations for a generated program family'),
+                 dict(name='tla-coro', path='spec/Coro.tla', serves_properties=['C20'], kind_free_text='TLA+ spec + TLC model checking + trace validation of mocked coroutines (C++20 driver)'),
                  dict(name='tla-clauses', path='spec/Clauses.tla', serves_properties=['C19'], kind_free_text='TLA+ typestate machine, TLC-generated transition cover compiled by g++'),
                  dict(name='tla-matchers', path='spec/Matchers.tla', serves_properties=['C10', 'C11'], kind_free_text='TLA+ oracle + TLC trace validation of real matcher verdicts'),
                  dict(name='tla-printing', path='spec/Printing.tla', serves_properties=['C18'], kind_free_text='TLA+ oracle + TLC trace validation of real print() output'),
